@@ -10,6 +10,13 @@ import sys
 def main():
     from mbv import sampler_engine as E
 
+    # a check started as a background job of a non-interactive shell (`bin/check C15 quick &`) inherits SIGINT = SIG_IGN,
+    # and Python then leaves it ignored in this process and every pool worker forked from it: the real signal would
+    # never interrupt anything (all process-group configurations "inconclusive" after 3 x 30 s).  The scenario is a
+    # user's terminal session, where the default handler is installed.
+    import signal
+
+    signal.signal(signal.SIGINT, signal.default_int_handler)
     cfg = json.load(open(sys.argv[1]))
     if os.environ.get("MBV_ONE_POOL_PROCESS"):
         # schedule control: multiprocessing.Pool may give both `_sample_chains_worker` tasks to ONE pool process (the
